@@ -6,7 +6,7 @@ From Coq Require Import NArith ZArith List Bool.
 From Verif Require Import Num ReactionText Units UnitText Schemas Dict.
 Import ListNotations.
 
-Inductive jv := JStr (s : str) | JBool (b : bool) | JNull | JObj (d : list (str * jv)).
+Inductive jv := JStr (s : str) | JBool (b : bool) | JNull | JObj (d : list (str * jv)) | JArr (l : list jv).
 
 (* ---- units system ---- *)
 Definition write_usys (wr : schema -> list (option jv) -> list (str * jv)) (u : usys) : jv :=
@@ -162,6 +162,50 @@ Section WithFloat.
         end
     | _ => Err
     end.
+  (* ---- network: rdnetwork_to_dict / rdnetwork_from_dict + RDNetwork's own validation ---- *)
+  Record network_obj := { no_species : list species_obj; no_reactions : list reaction_obj; no_envs : list str; no_units : usys }.
+
+  Definition write_network (n : network_obj) : jv :=
+    JObj (wr schema_network [Some (JArr (map write_species (no_species n))); Some (JArr (map write_reaction (no_reactions n)));
+                            Some (JArr (map JStr (no_envs n))); Some (write_usys wr (no_units n))]).
+
+  Fixpoint read_list {A} (f : jv -> res A) (l : list jv) : res (list A) :=
+    match l with
+    | [] => Ok []
+    | x :: rest => match f x, read_list f rest with Ok a, Ok r => Ok (a :: r) | _, _ => Err end
+    end.
+
+  Definition reaction_labels (rs : list reaction_obj) : list str :=
+    flat_map (fun r => match ro_label r with Some l => [l] | None => [] end) rs.
+
+  (* RDNetwork._assert_validity and the environments setter *)
+  Definition network_valid (n : network_obj) : bool :=
+    let sl := map so_label (no_species n) in
+    nodupb sl && nodupb (reaction_labels (no_reactions n))
+    && forallb (fun r => forallb (fun p : str * Z => mem_str (fst p) sl) (fst (ro_eq r) ++ snd (ro_eq r))) (no_reactions n)
+    && negb (match no_envs n with [] => true | _ => false end) && forallb (fun e => negb (str_eqb e k_default)) (no_envs n).
+
+  Definition read_network (parent : usys) (v : jv) : res network_obj :=
+    match v with
+    | JObj d =>
+        match read_fields jv schema_network d with
+        | Ok [Some (JArr sp); freac; fenv; funits] =>
+            match read_units_field parent funits with
+            | Ok u =>
+                match read_list (read_species u) sp,
+                      (match freac with None => Ok [] | Some (JArr l) => read_list (read_reaction u) l | Some _ => Err end),
+                      (match fenv with None => Ok [[]] | Some (JArr l) => read_list (fun x => match x with JStr e => Ok e | _ => Err end) l | Some _ => Err end) with
+                | Ok ss, Ok rs, Ok es =>
+                    let n := {| no_species := ss; no_reactions := rs; no_envs := es; no_units := u |} in
+                    if network_valid n then Ok n else Err
+                | _, _, _ => Err
+                end
+            | Err => Err
+            end
+        | _ => Err
+        end
+    | _ => Err
+    end.
 End WithFloat.
 
 (* ---- executable comparison of JSON values, for the correspondence ---- *)
@@ -171,6 +215,13 @@ Fixpoint jv_eqb (a b : jv) : bool :=
   | JStr s, JStr t => str_eqb s t
   | JBool x, JBool y => Bool.eqb x y
   | JNull, JNull => true
+  | JArr l, JArr m =>
+      (fix go (l m : list jv) : bool :=
+         match l, m with
+         | [], [] => true
+         | x :: l', y :: m' => jv_eqb x y && go l' m'
+         | _, _ => false
+         end) l m
   | JObj d, JObj e =>
       Nat.eqb (length d) (length e) &&
       (fix all (d : list (str * jv)) : bool :=
